@@ -24,6 +24,27 @@ def hexstring(value: Buffer) -> str:
     return '0x' + ''.join(spaced(value))
 
 
+def peertext(value: object, bare: bool = False) -> str:
+    """A string a peer chose, for the TEXT renderings (the JSON ones use json.dumps).
+
+    The text format has delimiters of its own -- the quotes around a name, the parentheses and brackets of the
+    capability list, the spaces between keywords -- and a peer string pasted as it is can close its own quotes and
+    write fields the peer never sent: a host name `), software(evil` rendered like an OPEN carrying that capability.
+    Backslash, double quote and everything outside printable ASCII are backslash-escaped (reversibly: the backslash
+    is escaped too); where the string is not inside quotes (bare) so are space, comma and the brackets.
+    """
+    special = '"\\' + (' ,()[]{}' if bare else '')
+    out = []
+    for character in str(value):
+        if character in special:
+            out.append('\\x{:02x}'.format(ord(character)) if character != '\\' else '\\\\')
+        elif character.isascii() and character.isprintable():
+            out.append(character)
+        else:
+            out.append(character.encode('unicode_escape').decode('ascii'))
+    return ''.join(out)
+
+
 def hexbytes(value: bytes) -> bytes:
     ascii_str = str(value, 'ascii')
     return bytes(hexstring(ascii_str.encode('ascii')), 'ascii')
